@@ -104,8 +104,35 @@ func checkConcurrent(rec *stats.Recorder, c concCase) string {
 			}
 			continue
 		}
+		if e := cc.Outcome.Err; e != nil {
+			// this call's own error response (distinct per call): status and message must be this call's, not a neighbour's
+			var rerr *restli.Error
+			if r.err == nil || !errors.As(r.err, &rerr) {
+				return fmt.Sprintf("call %d: its error response did not arrive as a Rest.li error: %v", i, r.err)
+			}
+			if d := diffErr(e, dyn.ErrFromGo(&rerr.ErrorResponse)); d != "" {
+				return fmt.Sprintf("call %d of %d concurrent calls received an error response that is not its own: %s", i, len(c.Calls), d)
+			}
+			if r.sl != nil && len(r.sl.wire) > 0 && e.Status != nil && r.sl.wire[len(r.sl.wire)-1].Status != int(*e.Status) {
+				return fmt.Sprintf("call %d: HTTP status %d, its error response has %d", i, r.sl.wire[len(r.sl.wire)-1].Status, *e.Status)
+			}
+			continue
+		}
 		if msg := judgeCall(mi, cc, r.got, r.err, r.sl); msg != "" {
 			return fmt.Sprintf("call %d of %d concurrent calls does not have the outcome of its serial execution: %s", i, len(c.Calls), msg)
+		}
+		// no leakage of the response status: the protocol's default for the method, or this call's own override
+		if r.sl != nil && len(r.sl.wire) > 0 {
+			want := defaultStatus(mi)
+			if cc.Outcome.StatusOverride != 0 {
+				want = cc.Outcome.StatusOverride
+			}
+			if cr := cc.Outcome.Created; cr != nil && cr.Status != 0 {
+				want = cr.Status
+			}
+			if got := r.sl.wire[len(r.sl.wire)-1].Status; got != want {
+				return fmt.Sprintf("call %d of %d concurrent calls (%s.%s) was answered %d, its serial execution answers %d", i, len(c.Calls), cc.Call.Resource, cc.Call.Method, got, want)
+			}
 		}
 	}
 	if shared.Message != nil || shared.Status == nil || *shared.Status != 409 {
@@ -142,6 +169,17 @@ func TestC17Concurrent(t *testing.T) {
 			cc := callCase{CorpusSeed: corpusSeed, Mount: c.Mount, Config: clientConfig{Threshold: c.Threshold, Transport: c.Transport}}
 			cc.Call = genCall(rt, g, mi)
 			cc.Outcome = genOutcome(rt, g, mi, &cc.Call)
+			switch rapid.IntRange(0, 5).Draw(rt, "own_outcome") {
+			case 0:
+				// an error response of its own (distinct per call)
+				st := int32(400 + i)
+				cc.Outcome = dyn.Outcome{Err: (&dyn.ErrM{Status: &st, Message: sp(fmt.Sprintf("error of call %d", i))}).Restrict()}
+			case 1:
+				// a status override of its own (where the exchange stays well-formed, as in C08)
+				if mi.M.Kind == "REST_METHOD" && mi.Rest() != "create" && defaultStatus(mi) != http.StatusNoContent {
+					cc.Outcome.StatusOverride = rapid.SampledFrom([]int{200, 201, 202, 206}).Draw(rt, "ostatus")
+				}
+			}
 			c.Calls = append(c.Calls, cc)
 		}
 		if msg := checkConcurrent(rec, c); msg != "" {
@@ -183,7 +221,7 @@ func TestC17D2(t *testing.T) {
 		done := make(chan struct{})
 		go func() { c.VerifWaitForUriUpdates("cl", events); close(done) }()
 		var wg sync.WaitGroup
-		errs := make(chan string, nres)
+		errs := make(chan string, nres+2)
 		start := make(chan struct{})
 		for i := 0; i < nres; i++ {
 			wg.Add(1)
@@ -196,7 +234,7 @@ func TestC17D2(t *testing.T) {
 						errs <- "resolution failed although a host is announced at all times: " + err.Error()
 						return
 					}
-					if u.Scheme != "http" || u.Path != "/ctx" {
+					if u.Scheme != "http" || u.Path != "/ctx" || !map[string]bool{"h0:80": true, "h1:80": true, "h2:80": true, "h3:80": true}[u.Host] {
 						errs <- "resolved a host that was never announced: " + u.String()
 						return
 					}
@@ -211,6 +249,28 @@ func TestC17D2(t *testing.T) {
 		wg.Wait()
 		close(events)
 		<-done
+		// quiescent: every announcement has been applied; resolutions return exactly the hosts announced last per node
+		final := map[string]bool{"h0:80": true}
+		for j := 0; j < nev; j++ {
+			final[fmt.Sprintf("h%d:80", 1+j%3)] = true
+		}
+		seen := map[string]bool{}
+		for j := 0; j < 200; j++ {
+			u, err := c.ResolveHostnameAndContextForQuery("svc", &url.URL{})
+			if err != nil {
+				errs <- "resolution failed after the announcements were applied: " + err.Error()
+				break
+			}
+			if !final[u.Host] {
+				errs <- fmt.Sprintf("after %d announcements were applied a host outside the announced set %v was resolved: %s", nev, final, u.String())
+				break
+			}
+			seen[u.Host] = true
+		}
+		if len(errs) == 0 && len(seen) != len(final) {
+			// 200 draws over at most 4 hosts with weights 1-4 of 10: missing one has probability < (9/10)^200
+			errs <- fmt.Sprintf("after the announcements were applied only %v of the announced hosts %v are ever resolved (an announcement applied concurrently with resolutions was lost)", seen, final)
+		}
 		select {
 		case m := <-errs:
 			rec.Violation("d2", m, map[string]any{"resolvers": nres, "events": nev})
